@@ -3,7 +3,7 @@ from .lib import query as q
 from .lib.budget import buffer_id
 from .lib.effects import Effects
 from .lib.symx import show
-from . import c07
+from . import c07, common
 
 FLIP = q.self_field('flip')
 FLOP = q.self_field('flop')
@@ -45,6 +45,32 @@ def r1_add_or_replace(ctx, f, rep, eff):
                             q.place_root(a1[1]) == ('deref', ('param', 0, 2))
         rep.check(good, 'C15-R1', b.nname, 'retain(|n| !item.invalidates(&n.item)) then push(Entry{remaining_tx: max_tx, item, '
                   'data})', construct='add_or_replace-shape')
+    # the converse of "only successful updates are gossiped": in handle_apply_summary an update that was applied
+    # (apply_successful) with do_broadcast set is always queued - whether or not it changed the active set (incarnation
+    # refreshes and refutations travel this way too)
+    hb = f.fn('Foca::handle_apply_summary')
+    sk = [k for k in range(2, hb.argc + 1) if str(hb.locals[k]).startswith('member::ApplySummary')]
+    bk = [k for k in range(2, hb.argc + 1) if str(hb.locals[k]) == 'bool']
+    nq = 0
+    if len(sk) == 1 and len(bk) == 1:
+        for p in ctx.paths(f, hb, 'none'):
+            if p.end != 'return':
+                continue
+            succ = dob = None
+            for c in p.conds():
+                e, t = q.norm_bool(c)
+                if e == ('fieldv', ('param', 0, sk[0]), 'apply_successful', None):
+                    succ = t
+                if e == ('param', 0, bk[0]):
+                    dob = t
+            queued = any(c['res'] == 'broadcast::Broadcasts::add_or_replace' and c['args'][0] == ('ref', q.self_field('updates'), True)
+                         for c in p.calls())
+            if q.path_is_error_propagation(p) and not queued:
+                continue        # serialize_member failed: nothing could be queued
+            nq += 1
+            rep.check(queued == (succ is True and dob is True), 'C15-R1', hb.nname, 'an update is queued for gossip exactly when '
+                      'it was applied and do_broadcast is set', construct='queued-iff-applied:%s:%s' % (succ, dob))
+    rep.floor('C15-R1', nq, 6, 'returning paths of handle_apply_summary')
     # writers of flip
     w = sorted(eff.writers_of('broadcast::Broadcasts', 'flip'))
     rep.check(set(w) <= {'broadcast::Broadcasts::add_or_replace', 'broadcast::Broadcasts::fill',
@@ -59,11 +85,13 @@ def r1_add_or_replace(ctx, f, rep, eff):
                     done = True
                     n += 1
                     mt = e['args'][3]
-                    inner = mt
-                    while inner[0] == 'cast':
-                        inner = inner[2]
-                    good = inner[0] == 'unop' and inner[1] == 'NonZeroGet' and \
-                        q.loads_self_field(inner[2], 'config', 'max_transmissions')
+
+                    def from_config(v, _b):
+                        while v[0] == 'cast':
+                            v = v[2]
+                        return v[0] == 'unop' and v[1] == 'NonZeroGet' and q.loads_self_field(v[2], 'config', 'max_transmissions')
+                    # (read where it is used, or handed down by every caller of a private function)
+                    good = common.value_or_param_satisfies(ctx, f, cb, mt, from_config)
                     rep.check(good, 'C15-R1', cb.nname, 'max_tx = config.max_transmissions.get()', site=e['span'],
                               construct='max_tx-provenance', facts={'max_tx': show(mt, cb)})
             if done:
@@ -395,6 +423,30 @@ def r4_r5_consumers_enqueuers(ctx, f, rep):
                           'updates.fill only under needs_piggyback && !piggyback_only_active', site=e['span'],
                           construct='fill-guard')
     rep.floor('C15-R4', n, 1, 'fill occurrences')
+    # the other direction: a datagram of a kind that piggybacks goes out without the count field and the updates only
+    # when there is no room for the count plus one byte (remaining <= 2) - no other veto (a larger reserve, a kind singled
+    # out) may keep pending updates off a datagram
+    nsk = 0
+    for p in ctx.paths(f, b, 'none'):
+        if p.end != 'return' or q.path_is_error_propagation(p):
+            continue
+        sends = [i for i, e in enumerate(p.events) if e['kind'] == 'call' and e['decl'] == 'runtime::Runtime::send_to']
+        if not sends or any(e['res'] in ('broadcast::Broadcasts::fill', 'member::Members::choose_active_members') for e in p.calls()):
+            continue
+        nsk += 1
+        calls = {c['id']: c for c in p.calls()}
+        g = c07.pred_conds(p, sends[0], b)
+        tight = False
+        is_rem = lambda v: v[0] == 'call' and v[1] in calls and calls[v[1]]['decl'] == 'bytes::BufMut::remaining_mut' and \
+            c07.touches_packet(p, calls[v[1]], mutably=False)
+        for c in q.conds_before(p, sends[0]):
+            hi = q.at_most(c, is_rem)
+            if hi is not None and hi[1] <= 2:
+                tight = True
+        rep.check(g.get('needs_piggyback') is False or tight, 'C15-R4', b.nname, 'updates (or the feed) are left out only for a '
+                  'kind that does not piggyback or when at most 2 bytes are left', construct='skip-justified',
+                  facts={k: v for k, v in g.items() if not k.endswith('#arg')})
+    rep.floor('C15-R4', nsk, 2, 'send_message paths that send without a piggyback section')
     # enqueuers of Foca.updates
     sites = {}
     for cb, bi, t in f.callers_of(lambda x: x == 'broadcast::Broadcasts::add_or_replace'):
